@@ -17,7 +17,7 @@ from .interp import (Closure, BoundModel, PyRaise, Exec)
 from .sbytes import SBytes, HexStr, ESeg, ASeg, format_hex, zt, norm, wrap
 from .sym import (Sym, SInt, SBool, SFloat, SStr, SAny, SymLeak, Unsupported, is_sym, mk_int, mk_bool, iterm, bterm,
                   fterm, is_intlike, Flt, StrS, F_OF_INT, F_DIV, F_MUL, F_ADD, F_SUB, F_NEG, F_ABS, F_ROUND, F_ROUNDN,
-                  F_TRUNC, F_UNPACK, F_LT, F_LE, B_XOR, B_AND, B_OR, CRCSTEP, CRCF, SUMF)
+                  F_TRUNC, F_UNPACK, F_LT, F_LE, B_XOR, B_AND, B_OR, B_SHL, CRCSTEP, CRCF, SUMF)
 
 
 # ---- strings drawn from a finite set (labels, reason texts): integer ids ----------------------------------------
@@ -66,6 +66,47 @@ def lookup_term(ex, table, key, default=None):
 
 def fresh_strid(ex, base="str"):
     return SStrId(z3.Int(ex._name(base)))
+
+
+class Guarded(Sym):
+    """list element that is present only under a condition (result of if-conversion of an append-only branch)"""
+    __slots__ = ('cond', 'value')
+
+    def __init__(self, cond, value):
+        self.cond = cond
+        self.value = value
+
+    def __repr__(self):
+        return f"Guarded({self.cond}, {self.value!r})"
+
+
+class SJoin(Sym):
+    """sep.join(items) where items may be present conditionally"""
+    __slots__ = ('sep', 'items')
+
+    def __init__(self, sep, items):
+        self.sep = sep
+        self.items = items       # [(cond term | True, str)]
+
+    def __repr__(self):
+        return f"SJoin({len(self.items)} items)"
+
+
+def sjoin_eq(ex, a, b):
+    """equality of two conditional joins over the same candidate strings (positionwise)"""
+    if a.sep != b.sep:
+        return False
+    ia = [(c, v) for c, v in a.items]
+    ib = [(c, v) for c, v in b.items]
+    if [v for _, v in ia] != [v for _, v in ib]:
+        # different candidate lists: equal iff both select the same concrete sequences; decided conservatively
+        raise Unsupported("comparison of conditional joins over different candidate lists")
+    conj = []
+    for (c1, _), (c2, _) in zip(ia, ib):
+        t1 = z3.BoolVal(True) if c1 is True else c1
+        t2 = z3.BoolVal(True) if c2 is True else c2
+        conj.append(t1 == t2)
+    return z3.simplify(z3.And(*conj)) if conj else True
 
 
 # ---- operators ---------------------------------------------------------------------------------------------------
@@ -123,6 +164,14 @@ def _binop_bv(ex, op, a, b):
     raise Unsupported(f"operator {op.__name__} in bit-vector mode (could overflow)")
 
 
+def _div_const(x, c):
+    """x div c for a positive constant c; (y div c1) div c2 == y div (c1*c2) for positive divisors"""
+    x = z3.simplify(x)
+    if z3.is_app_of(x, z3.Z3_OP_IDIV) and z3.is_int_value(x.arg(1)) and x.arg(1).as_long() > 0:
+        return x.arg(0) / z3.IntVal(x.arg(1).as_long() * c)
+    return x / z3.IntVal(c)
+
+
 def _range_fact(ex, r, a, b):
     for w in (8, 16, 32):
         lim = 2 ** w
@@ -148,14 +197,20 @@ def _binop_int(ex, op, a, b):
             if isinstance(b, int) and b == 0:
                 ex.raise_builtin(ZeroDivisionError, "integer division or modulo by zero")
             raise Unsupported("// or % by a non-constant or negative divisor")
-        return mk_int(x / y) if op is ast.FloorDiv else mk_int(x % y)
+        return mk_int(_div_const(x, b)) if op is ast.FloorDiv else mk_int(x % y)
     if op is ast.LShift:
         if isinstance(b, int) and b >= 0:
             return mk_int(x * (2 ** b))
-        raise Unsupported("<< by a symbolic amount")
+        if isinstance(b, int):
+            ex.raise_builtin(ValueError, "negative shift count")
+        # shift by a symbolic amount: uninterpreted (a refutation built on it must replay natively to count)
+        if not ex.known(y >= 0):
+            if ex.branch(y < 0, tag="shift.negative"):
+                ex.raise_builtin(ValueError, "negative shift count")
+        return mk_int(B_SHL(x, y))
     if op is ast.RShift:
         if isinstance(b, int) and b >= 0:
-            return mk_int(x / z3.IntVal(2 ** b))
+            return mk_int(_div_const(x, 2 ** b))
         raise Unsupported(">> by a symbolic amount")
     if op is ast.Pow:
         if isinstance(b, int) and 0 <= b <= 8:
@@ -215,6 +270,14 @@ def compare_sym(ex, op, a, b):
                 return fin(x == y)
             return mk_bool({ast.Lt: lambda: F_LT(x, y), ast.LtE: lambda: F_LE(x, y), ast.Gt: lambda: F_LT(y, x),
                             ast.GtE: lambda: F_LE(y, x)}[type(op)]())
+    if isinstance(a, SJoin) or isinstance(b, SJoin):
+        if eqop:
+            if isinstance(a, str):
+                a = SJoin(b.sep, [(z3.BoolVal(False), v) for _, v in b.items]) if a == "" else a
+            if isinstance(b, str):
+                b = SJoin(a.sep, [(z3.BoolVal(False), v) for _, v in a.items]) if b == "" else b
+            if isinstance(a, SJoin) and isinstance(b, SJoin):
+                return fin(sjoin_eq(ex, a, b))
     if isinstance(a, SStrId) or isinstance(b, SStrId):
         if eqop:
             def sid(v):
@@ -699,7 +762,7 @@ def m_minmax(is_max):
     return f
 
 
-_TYPEMAP = {SInt: (int,), SBool: (bool, int), SFloat: (float,), SStr: (str,), HexStr: (str,), SStrId: (str,)}
+_TYPEMAP = {SJoin: (str,), SInt: (int,), SBool: (bool, int), SFloat: (float,), SStr: (str,), HexStr: (str,), SStrId: (str,)}
 
 
 def m_isinstance(ex, v, t):
@@ -858,6 +921,9 @@ def m_dict_get(ex, d, key, default=None):
 
 def m_join(ex, sep, items):
     items = ex.iterate(items)
+    if any(isinstance(i, Guarded) for i in items) and all(
+            isinstance(i, str) or (isinstance(i, Guarded) and isinstance(i.value, str)) for i in items):
+        return SJoin(sep, [(True, i) if isinstance(i, str) else (i.cond, i.value) for i in items])
     if any(is_sym(i) for i in items):
         return ex.fresh_str("join")
     return sep.join(items)
@@ -1285,3 +1351,20 @@ def _exc_is(ex, raised, cls):
 
 
 _spec.exc_is._pyvc_sym = _exc_is
+
+
+@_symimpl(_spec.unpack_f32)
+def _s_unpack_f32(ex, b):
+    b = SBytes.of(b)
+    return SFloat(F_UNPACK(iterm(b._from_bytes_n(ex, 4, False, "big"))))
+
+
+@_symimpl(_spec.round_n)
+def _s_round_n(ex, x, n):
+    return SFloat(F_ROUNDN(fterm(x), iterm(n)))
+
+
+@_symimpl(_spec.s8)
+def _s_s8(ex, x):
+    t = iterm(x)
+    return mk_int(z3.If(t >= 128, t - 256, t))
